@@ -52,6 +52,7 @@ func c13(c *Ctx) {
 	r.Decides("on update both immutability validators run and compare the raw classes of old and new pod; every validator result reaches the error list that decides 'allowed'")
 	r.Decides("translation replaces the native entry by the extended one and erases it on the same path, the value coming only from the native quantity (milli-value for CPU); it is applied to requests and limits of containers and init containers and to overhead; a request is filled from the limit only when the request key is absent")
 	r.Decides("batch resources require QoS BE; LSR/LSE pods must request a whole number of CPUs")
+	r.Decides("the pair/shape validators run before any allowing answer on Create and Update alike; every erase of a native entry is paired with the store of the extended one; each priority class is returned only within its own Min..Max; the summary annotation is rewritten whenever it differs (size-aware equality) and copies Requests/Limits from the same side under the same name")
 	r.Declines("amount preservation for arbitrary quantities, idempotence as a round trip, equality of the summary annotation with the final spec")
 
 	ext := c.P.Pkg("apis/extension")
